@@ -48,6 +48,10 @@ type Config struct {
 	ClockBase int64  `json:"clock_base"` // unix nanoseconds at world start
 	// IdentMode: "pinned" (pid 4242, rand stream fixed) or "vary".
 	IdentMode string `json:"ident_mode"`
+	// Bubble runs the world inside a synctest bubble with the goroutine
+	// scheduler seam active; GoMode: "fifo" (spawn order), "lifo", "random", "mix".
+	Bubble bool   `json:"bubble,omitempty"`
+	GoMode string `json:"go_mode,omitempty"`
 	// Replay, when non-nil, replaces the PRNG: decision i is Replay[i].Chosen
 	// if kinds agree, else 0.
 	Replay []Choice `json:"replay,omitempty"`
